@@ -11,6 +11,13 @@ RULE += ("; + op mixes of next/read/read_bytes/skip_container/skip_unquoted_valu
          "error accessors / conversions into jomini::Error, all-optional typed targets (serde derive, JominiDeserialize) through both reader "
          "deserializers with a fault at every read call, and the extracted binary reader-deserializer model on the same fault schedules")
 # <<< a_c20
+# >>> s_c20 (wave 6)
+RULE += ("; + size ladders (0 1 2 3 7 8 9 .. 65535 65536), one dimension at a time: every io::ErrorKind at every read call of directed "
+         "documents (both readers, both reader deserializers, typed targets), index of the failing read, number of consecutive faults "
+         "then data (every attempt fails with ReaderErrorKind::Read, the retry after the last fault returns the fault-free results), "
+         "faults after the data is exhausted, buffer size x bytes carried over at the fault (strings up to the u16 limit 65535), nesting "
+         "depth at the fault (next / skip_container / deserializer recursion / ignored containers), number of siblings")
+# <<< s_c20
 TRUSTED = ["std::io::Read failure modelled as a Fail event in the schedule (BufWin.rd_read)"]
 ASSUMPTIONS = ["a caller may retry after a transient error (retry harness); the property does not require that, it only constrains calls that succeed"]
 
@@ -18,7 +25,7 @@ ASSUMPTIONS = ["a caller may retry after a transient error (retry harness); the 
 def run(ctx):
     C20_text.run_text_reader(ctx)
     # >>> a_c20 (wave 4): + C20_ops = every reader operation under faults, error accessors, typed all-optional targets
-    for name in ("C20_bin", "C20_de", "C20_ops"):
+    for name in ("C20_bin", "C20_de", "C20_ops", "C20_ladder"):   # s_c20 (wave 6): + C20_ladder = size / boundary ladders
     # <<< a_c20
         try:
             m = __import__("props." + name, fromlist=["x"])
